@@ -344,7 +344,10 @@ func TestPropSuperfluid(t *testing.T) {
 				o := rapid.IntRange(0, 2).Draw(rt, "owner")
 				val := valAddrs[rapid.IntRange(0, len(valAddrs)-1).Draw(rt, "val")]
 				a := amt(rt)
-				r := c.Exec(lockuptypes.NewMsgLockTokens(chain.Actor(o), unbonding+time.Hour, sdk.NewCoins(coin(share, a))))
+				// durations of one to three unbonding periods: a long lock that has started unlocking still has more than an
+				// unbonding period to go
+				dur := unbonding*time.Duration(rapid.IntRange(1, 3).Draw(rt, "durationPeriods")) + time.Hour
+				r := c.Exec(lockuptypes.NewMsgLockTokens(chain.Actor(o), dur, sdk.NewCoins(coin(share, a))))
 				if !r.OK() {
 					return
 				}
@@ -357,6 +360,17 @@ func TestPropSuperfluid(t *testing.T) {
 					bump(locks[lr.ID].val) // a top-up of a delegated lock
 					hist = append(hist, fmt.Sprintf("topup #%d %s", lr.ID, a))
 					return
+				}
+				// a lock that was never delegated may start unlocking like any lock; from then on it must not be accepted for
+				// superfluid delegation (it would mature and leave while the intermediary account keeps its stake)
+				if lock, err := lkk.GetLockByID(c.Ctx, lr.ID); err == nil && !lock.IsUnlocking() && rapid.IntRange(0, 3).Draw(rt, "unlockFirst") == 0 {
+					if r := c.Exec(lockuptypes.NewMsgBeginUnlocking(chain.Actor(o), lr.ID, nil)); r.OK() {
+						hist = append(hist, fmt.Sprintf("lock o%d %s #%d for %s; begin unlocking", o, a, lr.ID, dur))
+						if rapid.Bool().Draw(rt, "waitBeforeDelegating") {
+							c.Advance(time.Duration(rapid.Int64Range(1, int64(dur-unbonding)).Draw(rt, "wait")))
+						}
+						cs.Class("delegation-of-unlocking-lock-attempted")
+					}
 				}
 				v, _ := sdk.ValAddressFromBech32(val)
 				r = c.Exec(sftypes.NewMsgSuperfluidDelegate(chain.Actor(o), lr.ID, v))
